@@ -257,7 +257,8 @@ class DULServiceProvider(threading.Thread):
         # type: () -> bool
         # There is something to read
         try:
-            data = self.dul_socket.recv(self.max_pdu_length)
+            # zero maximum length means 'no limit', not 'read nothing'
+            data = self.dul_socket.recv(self.max_pdu_length or 65536)
         except socket.error:
             self.event.append(fsm.Events.EVT_17)
             self.dul_socket.close()
@@ -308,7 +309,7 @@ class DULServiceProvider(threading.Thread):
             return False
 
         try:
-            if self.dul_socket.recv(self.max_pdu_length) != b'':
+            if self.dul_socket.recv(self.max_pdu_length or 65536) != b'':
                 return False  # association no longer exists, data is ignored
         except socket.error:
             pass
